@@ -100,7 +100,7 @@ def case_strategy():
         n = draw(st.sampled_from([6, 12, 20, 30]))
         ops = []
         for _ in range(n):
-            k = draw(st.sampled_from(["call"] * 8 + ["reg", "unreg"]))
+            k = draw(st.sampled_from(["call"] * 8 + ["reg", "unreg", "noop"]))
             if k == "call":
                 ops.append(["call", draw(st.integers(0, len(pool) - 1))])
             else:
@@ -167,6 +167,13 @@ def run_case(spec):
                 registered.remove(mid)
                 warmed.clear()
                 res.label("op:unreg")
+            elif mutable and op[0] == "noop":
+                # operations that do not change the set of methods: adding no mixin / the function itself
+                r = capture(prog.ov.add_mixins) if op[1] % 2 else capture(prog.ov.add_mixins, prog.ov)
+                if r.kind not in ("ok", "config"):
+                    res.fail(f"add_mixins() with nothing to add raised {r.brief()}", None)
+                    break
+                res.label("op:add_mixins-nothing")
             elif mutable and op[0] == "reg":
                 cand = [m["id"] for m in spec["methods"] if m["id"] not in registered]
                 if not cand:
